@@ -245,7 +245,9 @@ Fixpoint run (c : cfg) (s : state) (ls : list label) : option state :=
   end.
 
 (* ---------- canonical run of a fault script (used by the correspondence) ---------- *)
-Inductive connmode := CAccept | CRefuse | CStall | CAcceptClose | CNoRead.
+Inductive connmode := CAccept | CRefuse | CStall | CAcceptClose | CNoRead
+| CNoReadEarly (t : N) (* never reads; t after accepting it sends a reply for every request id it expects *).
+Definition early_pay : N := 3931302481.
 (* what the peer does with the n-th request it reads: an unsolicited packet first, the proper reply after a delay,
    the reply twice, take the connection down *)
 Record act := mkact { a_junk : bool; a_reply : option N; a_dup : bool; a_down : bool }.
@@ -334,16 +336,18 @@ Definition sched (sc : scen) (s : state) (e : env) : label * env :=
   match find_idx (fun k => match k_pc k with Dialing => true | _ => false end) (calls s) 0, sc_conn sc with
   | Some (i, _), CRefuse => (LDialFail i, e)
   | Some (i, _), CAccept | Some (i, _), CNoRead => (LDialOk i, e)
+  | Some (i, _), CNoReadEarly t =>
+      (LDialOk i, mkenv (e_pend e ++ map (fun j => (now s + t, id_of j, early_pay)) (seq 0 (expected_calls sc))) 0)
   | Some (i, _), CAcceptClose => (LDialOk i, mkenv (e_pend e) 1)
   | _, _ =>
   (* the sender goroutine writes the head of the queue; the peer reads it and follows its script *)
-  let can_take := match sc_conn sc with CNoRead => match wire s with [] => true | _ => false end | _ => true end in
+  let can_take := match sc_conn sc with CNoRead | CNoReadEarly _ => match wire s with [] => true | _ => false end | _ => true end in
   match sendq s with
   | i :: _ =>
       if conn_open s && can_take then
         let a := nth_last (sc_acts sc) (length (wire s)) (mkact false None false false) in
         let rep := match sc_conn sc, a_reply a with
-                   | CNoRead, _ | _, None => []
+                   | CNoRead, _ | CNoReadEarly _, _ | _, None => []
                    | _, Some d => (now s + d, id_of i, pay_of i) :: (if a_dup a then [(now s + d + 1, id_of i, pay_of i)] else [])
                    end in
         let junk := if a_junk a then [(now s, 1000000 + id_of i, 0)] else [] in
